@@ -238,6 +238,7 @@ type gen struct {
 	count    map[string]int
 	group    string
 	mismatch int
+	noModel  bool // tag the next D line nm: the runner skips it
 }
 
 func (g *gen) emit(line string) string {
@@ -277,8 +278,12 @@ func (g *gen) emitD(suite string, k keyset, seq, rec []byte, label string, want 
 	if label != "mutant" {
 		w = hx.Hex(want)
 	}
-	return g.emit(fmt.Sprintf("D %d %s %s %s %s %s %s %s %s", g.next(), suite, hx.Hex(k.key), hx.Hex(k.mac), hx.Hex(k.iv),
-		hx.Hex(seq), hx.Hex(rec), label, w))
+	tag := ""
+	if g.noModel {
+		tag = " nm"
+	}
+	return g.emit(fmt.Sprintf("D %d %s %s %s %s %s %s %s %s%s", g.next(), suite, hx.Hex(k.key), hx.Hex(k.mac), hx.Hex(k.iv),
+		hx.Hex(seq), hx.Hex(rec), label, w, tag))
 }
 
 // flip one bit; header bytes 3 and 4 (the length field) are never read by halfConn.decrypt
@@ -378,10 +383,16 @@ func generate(seed uint64, tier string, o *hx.Out) *gen {
 			n := len(body)
 			g.emitD("cbc", k, seq, sealCBC(k.key, typ, ver, iv, body), "genuine", data)
 			// every padding byte position corrupted
+			// quick tier: the implementation is run (and the predicate evaluated) on every position; the
+			// model is compared on the length byte, the first and last padding byte, the middle and three
+			// random positions per padding length, the other lines carry the tag nm (no model)
+			keep := map[int]bool{0: true, 1: true, L / 2: true, L - 1: true, L: true, r.Intn(L + 1): true, r.Intn(L + 1): true, r.Intn(L + 1): true}
 			for j := 0; j <= L; j++ {
 				m := append([]byte{}, body...)
 				m[n-1-j] ^= byte(1 + r.Intn(255))
+				g.noModel = tier != "thorough" && !keep[j]
 				g.emitD("cbc", k, seq, sealCBC(k.key, typ, ver, iv, m), "mutant", nil)
+				g.noModel = false
 			}
 			// one flipped bit in the plaintext MAC, padding intact
 			for c := 0; c < 2; c++ {
